@@ -135,7 +135,9 @@ func (f *Filter) Filter(subject any) {
 
 	case *structs.IndexedExportedServiceList:
 		for peer, peerServices := range v.Services {
-			v.ResultsFilteredByACLs = f.filterServiceList(&peerServices)
+			if f.filterServiceList(&peerServices) {
+				v.ResultsFilteredByACLs = true
+			}
 			if len(peerServices) == 0 {
 				delete(v.Services, peer)
 			} else {
